@@ -170,6 +170,21 @@ fn driver(args: &[String]) -> i32 {
             },
         }
     }
+    // thorough tier: coverage-guided campaign with the semantic oracle inside the target
+    let mut fuzz_info = serde_json::json!(null);
+    if tier == Tier::Thorough && merged.failures.is_empty() {
+        if let Some(target) = spec.fuzz_target {
+            match fuzz_campaign(&root, &id, target, seed) {
+                Ok((info, fails, runs)) => {
+                    fuzz_info = info;
+                    merged.evaluations += runs;
+                    merged.failures.extend(fails);
+                    *merged.classes.entry("libfuzzer_executions".into()).or_insert(0) += runs;
+                }
+                Err(e) => infra_problem.push(format!("fuzz campaign could not run: {}", e)),
+            }
+        }
+    }
     let wall = start.elapsed().as_secs_f64();
 
     // distinct failures by signature+message prefix
@@ -184,7 +199,7 @@ fn driver(args: &[String]) -> i32 {
     merged.failures = failures;
 
     let exhaustive = !merged.exhaustive_dims.is_empty();
-    let ev = ctx::evidence_json(&id, tier, seed, spec.level, spec.rule, spec.assumptions, &merged, nontrivial.len() + merged.nontrivial_enumerated as usize, wall, exhaustive, serde_json::json!({"workers": nworkers, "inconclusive": merged.inconclusive}));
+    let ev = ctx::evidence_json(&id, tier, seed, spec.level, spec.rule, spec.assumptions, &merged, nontrivial.len() + merged.nontrivial_enumerated as usize, wall, exhaustive, serde_json::json!({"workers": nworkers, "inconclusive": merged.inconclusive, "libfuzzer": fuzz_info}));
     let evpath = evdir.join(format!("{}.json", id));
     if let Err(e) = std::fs::write(&evpath, serde_json::to_vec_pretty(&ev).unwrap()) {
         eprintln!("cannot write evidence: {}", e);
@@ -228,6 +243,84 @@ fn driver(args: &[String]) -> i32 {
         }
     }
     code
+}
+
+/// libFuzzer campaign (fixed work: -runs per job, 16 jobs) on a fresh copy of the committed corpus
+fn fuzz_campaign(root: &std::path::Path, id: &str, target: &str, seed: u64) -> Result<(Value, Vec<ctx::Failure>, u64), String> {
+    let work = root.join("target").join("fuzzwork").join(format!("{}-{}", id, std::process::id()));
+    let corpus = work.join("corpus");
+    let art = work.join("art");
+    let _ = std::fs::remove_dir_all(&work);
+    std::fs::create_dir_all(&corpus).map_err(|e| e.to_string())?;
+    std::fs::create_dir_all(&art).map_err(|e| e.to_string())?;
+    if let Ok(rd) = std::fs::read_dir(root.join("corpus").join(target)) {
+        for e in rd.filter_map(|e| e.ok()) {
+            let _ = std::fs::copy(e.path(), corpus.join(e.file_name()));
+        }
+    }
+    let jobs = std::thread::available_parallelism().map(|n| n.get()).unwrap_or(4).min(16);
+    let runs: u64 = std::env::var("VERIF_FUZZ_RUNS").ok().and_then(|s| s.parse().ok()).unwrap_or(if target == "fz_line" { 1_500_000 } else { 1_000_000 });
+    let st = Command::new("cargo")
+        .current_dir(&work)
+        .env("CARGO_NET_OFFLINE", "true")
+        .args(["+nightly", "fuzz", "run", "--fuzz-dir"])
+        .arg(root.join("fuzz"))
+        .args(["-s", "none", "--target-dir"])
+        .arg(root.join("target").join("fuzz"))
+        .arg(target)
+        .arg(&corpus)
+        .arg("--")
+        .args([format!("-runs={}", runs), format!("-seed={}", if seed == 0 { 1 } else { seed }), "-len_control=0".into(), "-max_len=2048".into(), format!("-jobs={}", jobs), format!("-workers={}", jobs), "-print_final_stats=1".into(), format!("-artifact_prefix={}/", art.display())])
+        .stdout(std::process::Stdio::null())
+        .stderr(std::process::Stdio::piped())
+        .output()
+        .map_err(|e| format!("cannot start cargo fuzz: {}", e))?;
+    let err = String::from_utf8_lossy(&st.stderr).to_string();
+    // executed units from the job logs
+    let mut executed = 0u64;
+    let mut logs = 0;
+    if let Ok(rd) = std::fs::read_dir(&work) {
+        for e in rd.filter_map(|e| e.ok()) {
+            let n = e.file_name().to_string_lossy().to_string();
+            if n.starts_with("fuzz-") && n.ends_with(".log") {
+                logs += 1;
+                if let Ok(t) = std::fs::read_to_string(e.path()) {
+                    for l in t.lines() {
+                        if let Some(v) = l.strip_prefix("stat::number_of_executed_units:") {
+                            executed += v.trim().parse::<u64>().unwrap_or(0);
+                        }
+                    }
+                }
+            }
+        }
+    }
+    let mut fails = Vec::new();
+    let mut artifacts = Vec::new();
+    if let Ok(rd) = std::fs::read_dir(&art) {
+        for e in rd.filter_map(|e| e.ok()) {
+            let data = std::fs::read(e.path()).unwrap_or_default();
+            artifacts.push(e.file_name().to_string_lossy().to_string());
+            let saved = unsafe { libc::dup(1) };
+            sqverif::run::install_quiet_panic_hook();
+            sqverif::run::silence_stdout();
+            let r = if target == "fz_line" { sqverif::fuzz_entry::check_line_bytes(&data) } else { sqverif::fuzz_entry::check_stream_bytes(&data) };
+            unsafe {
+                libc::dup2(saved, 1);
+                libc::close(saved);
+            }
+            if let Err((p, m)) = r {
+                fails.push(ctx::Failure { property: id.to_string(), msg: format!("libFuzzer artifact {}: [{}] {}", e.file_name().to_string_lossy(), p, m), sig: "fuzz:artifact".into(), case: props::fuzz_case(target, &data) });
+            }
+        }
+    }
+    if logs == 0 && executed == 0 {
+        return Err(format!("no libFuzzer log was produced: {}", err.lines().rev().take(5).collect::<Vec<_>>().join(" | ")));
+    }
+    let info = serde_json::json!({"target": target, "jobs": jobs, "runs_per_job": runs, "executed_units": executed, "artifacts": artifacts, "corpus_seed_files": std::fs::read_dir(root.join("corpus").join(target)).map(|d| d.count()).unwrap_or(0)});
+    if fails.is_empty() {
+        let _ = std::fs::remove_dir_all(&work);
+    }
+    Ok((info, fails, executed))
 }
 
 fn replay(args: &[String]) -> i32 {
